@@ -34,26 +34,41 @@ CHECKS.update({
    "explicit-state search; per-swap-step oracle from the H2 trace + totals from real balances/accounts + emitted event",
    "Every swap transition within the depth bound splits exactly as stated (per-step fee, protocol cut, growth; trader debit/credit; Traded event); every collect_protocol_fees pays exactly what is owed and resets it; fee / protocol rates varied inside the search.",
    SVM + " Hook H2 is trusted to record the values the swap loop used.", "DESIGN.md §3 C06"),
- "C08": (B, "exploration",
-   "bounded-exhaustive enumeration of (range, price/tick state, liquidity) incl. complete small box, exact rational oracle; Anchor vs Pinocchio differential",
-   "Function-level: deposit=ceil, withdrawal=floor of the exact amounts, one-sidedness, add-then-remove loss <= 1, estimate is the largest fitting liquidity, Anchor==Pinocchio — over boundary cross products and a complete small box.",
-   "Prices and liquidities are alphabet points plus a complete small box (not all of u128); pub functions are called directly (hook H1).", "DESIGN.md §3 C08"),
- "C12": (B, "exploration",
-   "bounded-exhaustive differential Pinocchio vs Anchor: usable-tick lookup (complete product), memory-mapped views vs Anchor serialisation, modify-liquidity over a structured state alphabet",
-   "Function-level bit-for-bit agreement of the Pinocchio port with the Anchor reference over complete products of stated alphabets; byte-identical account images after sync.",
-   "State alphabets instead of all byte contents; hook H1 exports the private Pinocchio modules.", "DESIGN.md §3 C12"),
+ "C08": (A, "model_checking",
+   "function level: bounded-exhaustive enumeration vs exact rational oracle (Anchor and Pinocchio); handler level: explicit-state search, every increase/decrease judged from real balances and re-executed with caller bounds realised-1/0/+1; by-token-amounts in every state",
+   "Function-level: deposit=ceil, withdrawal=floor of the exact amounts, one-sidedness, add-then-remove loss <= 1, estimate is the largest fitting liquidity, Anchor==Pinocchio over boundary cross products and a complete small box. Handler-level: every liquidity transition within the depth bound moves exactly those amounts, reports them, and token_max/token_min flip exactly at the realised amounts; increase_liquidity_by_token_amounts_v2 adds the largest fitting liquidity.",
+   SVM + " Prices and liquidities are alphabet points plus a complete small box (not all of u128).", "DESIGN.md §3 C08"),
+ "C12": (A, "model_checking",
+   "instruction-level differential inside an explicit-state search (Pinocchio handler vs Anchor handler from the same pre-state: byte-identical post-ledger, events, errors) + function-level bounded-exhaustive differential + routing conformance against the real entrypoint symbol",
+   "Every increase/decrease transition (v1/v2, fixed/dynamic arrays) of every sequence within the depth bound, plus failing variants in every state, gives byte-identical ledgers/events/error codes through both implementations; function-level agreement over complete products of stated alphabets; harness dispatch == entrypoint.rs for all 66 discriminators.",
+   SVM + " The Anchor handlers are invoked through a replica of Anchor's generated dispatcher (the #[program] stubs are unreachable!()). State alphabets instead of all byte contents at function level.", "DESIGN.md §3 C12"),
  "C13": (A, "model_checking",
    "explicit-state search on the codec: complete transition system over a boundary slot set (3^8 states x all ops) + all op sequences <= depth over all 88 slots, 4 real implementations side by side",
    "Dynamic (Anchor + Pinocchio) and fixed (Anchor + Pinocchio) arrays driven with the same update sequences: canonical encoding, identical get_tick / next-initialized answers and errors after every op.",
    "Overlay casts for types without public constructors (same as the program's loaders); bytes beyond the used length unconstrained (not persisted on chain).", "DESIGN.md §3 C13"),
- "C16": (B, "exploration",
-   "bounded-exhaustive enumeration over all fee bps (thorough) x max-fee x amount alphabets x epoch, exact reference definition; TLV parser vs StateWithExtensions over extension subsets/orders",
-   "Function-level: excluded+fee==amount, included is the least pre-image or an error only when none exists, Anchor==Pinocchio, hand-written TLV parser == spl-token-2022.",
-   "Amounts are alphabet points; mints are built by the real Token-2022 processor.", "DESIGN.md §3 C16"),
+ "C16": (A, "model_checking",
+   "function level: bounded-exhaustive enumeration over fee bps x max-fee x amounts x epoch vs exact reference; handler level: explicit-state search over transfer-fee pools with the real Token-2022 processor, oracles from real balances + H2 trace + events",
+   "Function-level: excluded+fee==amount, included is the least pre-image or errors only when none exists, Anchor==Pinocchio, TLV parser == spl-token-2022. Handler-level: every swap / increase / decrease within the depth bound moves exactly the curve amounts into/out of the vault, charges the smallest fee-including amount, applies thresholds and caller bounds to what the user pays/receives, reports the amounts moved; solvency invariant holds.",
+   SVM + " One fee schedule per mint at handler level (epoch selection is function-level).", "DESIGN.md §3 C16"),
  "C19": (B, "exploration",
    "complete tables: all 2^17 extension subsets x default-state x freeze x 8 badge states (thorough), all u16 setter arguments, validate_constants cross product; representatives end-to-end through initialize_pool_v2 / initialize_reward_v2",
    "Admission verdict equals the table for every extension combination and badge state; setters accept exactly in-bound values; validate_constants equals the published rules; end-to-end pool/reward creation succeeds iff admitted.",
    "Table rows the statement does not name follow the code's allow-list (recorded as assumptions in the evidence).", "DESIGN.md §3 C19"),
+})
+
+CHECKS.update({
+ "C07": (A, "model_checking",
+   "explicit-state search in ledger mode: state = real ledger + exact rational shadow ledger of fee entitlements (no merging of histories); two-sided bound at every observation point",
+   "For every op sequence up to the completed depth (swaps across/onto/short of bounds both ways, liquidity changes incl. shared and de-initialised bounds, updates, collects; accumulators at 0, mid-range and just below wrap-around; pool starting on a bound): collected+owed of every position is at most its exact pro-rata entitlement and short of it by less than L/2^64 per credited step + 1 per update.",
+   SVM + " Hook H2 supplies per-step liquidity/fee and crossings; the active set is re-derived from position ranges and cross-checked against each step's liquidity.", "DESIGN.md §3 C07"),
+ "C11": (A, "model_checking",
+   "explicit-state search in ledger mode with the harness clock: exact rational shadow ledger of reward entitlements per position and reward index; enabledness oracles for emission changes, collects and earlier timestamps",
+   "For every op sequence up to the completed depth (clock steps, swaps moving positions in/out of range, liquidity changes, updates, collects against a vault holding exactly one day of emissions, emission changes incl. refused ones, late reward initialisation): credited rewards are within the two-sided rounding bound of the exact share; nothing accrues at zero liquidity or for uninitialised rewards; earlier timestamps fail; collect pays min(owed, vault); emission changes settle at the old rate and need a day of emissions.",
+   SVM, "DESIGN.md §3 C11"),
+ "C15": (A, "fault_enumeration",
+   "complete substitution matrix: every account slot of every fund-moving instruction x every same-typed foreign account (twin universe, sibling pool/position/reward index/token program), executed on the real program",
+   "Every non-exempt substitution is rejected with the ledger unchanged (16 instructions, SPL and mixed Token-2022 variants, 4-6 root states); exemptions are listed with justification in the evidence.",
+   SVM + " Only rejection by some layer is required (a constraint duplicated by the token program cannot be isolated by outcome).", "DESIGN.md §3 C15"),
 })
 
 NOT_APPLICABLE = {
